@@ -49,6 +49,10 @@ func HostileSweep(run *ev.Run, backend string) {
 	crits := HostileCrits()
 	tmp := drv.WriteTemp("hostile-export.json", "")
 	imp := drv.WriteTemp("hostile-import.json", `[{"x":1}]`)
+	badImports := []string{}
+	for i, content := range []string{`[null]`, `[{"a":1},null]`, `null`, `[]`, `{}`, `[1]`, `[[null]]`, `[{"_id":null}]`, `[{"_id":{}}]`, `[{"_expiresAt":"x"}]`, `[{"":{"":null}}]`, `[{"a":1e400}]`, ``, `[`} {
+		badImports = append(badImports, drv.WriteTemp(fmt.Sprintf("hostile-import-%d.json", i), content))
+	}
 	for _, sit := range situations {
 		in := drv.MustOpen(backend)
 		for _, o := range sit.setup {
@@ -132,6 +136,10 @@ func HostileSweep(run *ev.Run, backend string) {
 				{K: "dropColl", Coll: coll},
 			} {
 				try(o)
+				restore()
+			}
+			for _, f := range badImports {
+				try(m.Op{K: "import", Coll: "imp" + coll, Text: f})
 				restore()
 			}
 		}
